@@ -3,8 +3,10 @@ package c14
 import (
 	"encoding/json"
 	"fmt"
+	"github.com/GuanceCloud/platypus/pkg/engine/runtimev2"
 	"os"
 	"path/filepath"
+	"sync"
 	"testing"
 	"time"
 
@@ -181,8 +183,8 @@ func TestTerminatingPrograms(t *testing.T) {
 				proper := checkAt(t, name, c, k, base.Trace, false)
 				evid.Case(fmt.Sprintf("%s/%s/%d", name, skel, k), proper, name)
 			}
-			if v2 && base.Polls == 0 && len(base.Trace) > 1 {
-				rk.Fail(t, name, replay{c.Replay(""), 1}, "v2: the signal was never polled during a run with %d probe records\nscript:\n%s", len(base.Trace), c.Texts[c.Root])
+			if base.Polls == 0 && len(base.Trace) > 1 {
+				rk.Fail(t, name, replay{c.Replay(""), 1}, "%s: the signal was never polled during a run with %d probe records\nscript:\n%s", name, len(base.Trace), c.Texts[c.Root])
 			}
 			evid.Sample(map[string]any{"interpreter": name, "script": c.Texts[c.Root], "polls": base.Polls, "probe_records": len(base.Trace)})
 		})
@@ -241,6 +243,10 @@ func TestRaisedDuringBuiltin(t *testing.T) {
 		{"for-in-inside", map[string][]*gen.Node{"main.p": {gen.NFor(nil, nil, nil, []*gen.Node{gen.NForIn("e", gen.NList(gen.NInt(1), gen.NInt(2), gen.NInt(3)), []*gen.Node{gen.NCall("probe", gen.NStr("e"), id("e"))})})}}, true, far},
 		{"in-callee", map[string][]*gen.Node{"main.p": {gen.NCall("probe", gen.NStr("before")), gen.NCall("use", gen.NStr("s1.p")), gen.NCall("probe", gen.NStr("after"))},
 			"s1.p": {gen.NSet("n", gen.NInt(0)), gen.NFor(nil, nil, nil, []*gen.Node{inc("n"), gen.NCall("probe", gen.NStr("callee"), id("n"))})}}, false, far},
+		// terminating programs: only for-in loops; no loop at all; a for-in over a string; nested for-in
+		{"only-for-in", map[string][]*gen.Node{"main.p": {gen.NForIn("e", gen.NList(gen.NInt(1), gen.NInt(2), gen.NInt(3), gen.NInt(4), gen.NInt(5), gen.NInt(6), gen.NInt(7), gen.NInt(8)), []*gen.Node{gen.NCall("probe", gen.NStr("tick"), id("e"))}), gen.NCall("probe", gen.NStr("after"))}}, true, []int{1, 2, 3, 7, 8}},
+		{"straight-line", map[string][]*gen.Node{"main.p": {gen.NCall("probe", gen.NStr("a")), gen.NSet("x", gen.NInt(1)), gen.NCall("probe", gen.NStr("b")), gen.NCall("probe", gen.NStr("c")), gen.NIf([]*gen.Node{gen.NBool(true)}, [][]*gen.Node{{gen.NCall("probe", gen.NStr("d")), gen.NCall("probe", gen.NStr("e"))}}, nil, false), gen.NCall("probe", gen.NStr("f"))}}, true, []int{1, 2, 3, 4, 5}},
+		{"for-in-string-nested", map[string][]*gen.Node{"main.p": {gen.NForIn("c", gen.NStr("abcd"), []*gen.Node{gen.NForIn("k", gen.NMap(gen.NStr("only"), gen.NInt(1)), []*gen.Node{gen.NCall("probe", gen.NStr("in"), id("c"), id("k"))}), gen.NCall("probe", gen.NStr("out"), id("c"))})}}, true, []int{1, 2, 3, 4, 5, 6}},
 	}
 	for _, w := range []int64{0, 10, 1000, 3000, 5000, 9000} {
 		// a caller that has been running for a while, then a callee in which the flag is raised, then three more statements
@@ -411,6 +417,66 @@ func TestNilReceiverSignal(t *testing.T) {
 		}
 	}
 	evid.Exhaustive("non-terminating programs x interpreter x poll index with a typed-nil signal", n)
+}
+
+// TestConcurrentRunsOwnSignal: two overlapping runs, each with its own signal - and, for v2, with one option slice of
+// spare capacity passed to both, as a host that builds its options once would do: every run polls its own signal.
+func TestConcurrentRunsOwnSignal(t *testing.T) {
+	src := "n = 0\nfor i = 0; i < 3000; i = i + 1 {\n  n = n + 1\n}\n"
+	n := 0
+	for rep := 0; rep < evid.Scale(30, 200); rep++ {
+		// v2
+		s, err, crash := impl.LoadV2("main.p", src, sem.V2Fns())
+		if err != nil || crash != nil {
+			t.Fatalf("harness: %v %v", err, crash)
+		}
+		opts := make([]runtimev2.Opt, 1, 8)
+		opts[0] = runtimev2.WithPrivate(map[runtimev2.TaskP]any{})
+		sigA, sigB := &probe.Sig{FireAt: 3}, &probe.Sig{FireAt: 1000000}
+		var wg sync.WaitGroup
+		start := make(chan struct{})
+		for _, sg := range []*probe.Sig{sigA, sigB} {
+			wg.Add(1)
+			go func(sg *probe.Sig) {
+				defer wg.Done()
+				<-start
+				_, _ = impl.RunV2(s, sg, opts...)
+			}(sg)
+		}
+		close(start)
+		wg.Wait()
+		rp := map[string]any{"script": src, "runs": "v2, one shared option slice (len 1, cap 8), signals firing at poll 3 and never"}
+		if sigA.Polls < 3 || sigA.Polls > 50 {
+			rk.Fail(t, "own-signal", rp, "v2: the run whose signal fires at its 3rd poll polled it %d times (the other run's signal was polled %d times): every run must poll the signal it was given", sigA.Polls, sigB.Polls)
+		}
+		if sigB.Polls < 3000 {
+			rk.Fail(t, "own-signal", rp, "v2: the run whose signal never fires polled it only %d times in a loop of 3000 passes", sigB.Polls)
+		}
+		// v1: two runs of one loaded script on private points
+		call, check := sem.V1Tables()
+		ok, errs, c2 := impl.LoadV1(map[string]string{"main.p": src}, call, check)
+		if len(errs) > 0 || c2 != nil {
+			t.Fatalf("harness: %v %v", errs, c2)
+		}
+		s1A, s1B := &probe.Sig{FireAt: 3}, &probe.Sig{FireAt: 1000000}
+		start = make(chan struct{})
+		for _, sg := range []*probe.Sig{s1A, s1B} {
+			wg.Add(1)
+			go func(sg *probe.Sig) {
+				defer wg.Done()
+				<-start
+				_, _ = impl.RunV1(ok["main.p"], impl.NewPoint("m", nil, map[string]any{}), sg)
+			}(sg)
+		}
+		close(start)
+		wg.Wait()
+		if s1A.Polls < 3 || s1A.Polls > 50 || s1B.Polls < 3000 {
+			rk.Fail(t, "own-signal", map[string]any{"script": src, "runs": "v1, two runs of one loaded script"}, "v1: polls of the run cancelled at poll 3: %d; of the run never cancelled: %d", s1A.Polls, s1B.Polls)
+		}
+		n++
+	}
+	evid.Case("own-signal", true, "concurrent-runs-own-signal")
+	evid.LabelN("concurrent-run-pairs", n)
 }
 
 func TestNonTerminatingPrograms(t *testing.T) {
